@@ -232,4 +232,21 @@ theorem toPath_of_perm {κ ν} [BEq κ] [LawfulBEq κ] (val : κ → ν) (path :
     subst this
     simp [← hk']
 
+theorem onGrid_perm {κ ν} [BEq κ] {arr arr' : List (κ × ν)} (h : arr.Perm arr') (g : κ) :
+    (onGrid arr g).Perm (onGrid arr' g) := by
+  unfold onGrid
+  exact (h.filter _).map _
+
+theorem toGrid_of_perm {κ ν} [BEq κ] [Field ν] {arr arr' : List (κ × ν)} (h : arr.Perm arr') (grid : List κ) :
+    toGrid arr grid = toGrid arr' grid := by
+  unfold toGrid
+  apply List.map_congr_left
+  intro g _
+  rw [(onGrid_perm h g).sum_eq, (onGrid_perm h g).length_eq]
+
+theorem arrivals_perm {α} (batch : Nat → List α) {l l' : List Nat} (h : l.Perm l') :
+    (arrivals batch l).Perm (arrivals batch l') := by
+  unfold arrivals
+  exact h.flatMap_right batch
+
 end WB.C12
